@@ -77,3 +77,24 @@ pub fn bundled(name: &str) -> GenShape {
     let (ctx, root) = Context::from_text(&text[..]).unwrap();
     GenShape { ctx, root, kind: "bundled" }
 }
+
+/// Polyhedral shapes centred at the origin with bounding radius below 0.95, meant to be meshed through a PURE rotation
+/// (oblique creases and thin walls relative to the grid: where cell collapse and two-sheet leaves meet).
+pub fn gen_oblique(r: &mut Rng) -> GenShape {
+    let bx = |r: &mut Rng, hx: f32, hy: f32, hz: f32| -> Tree { let _ = r; fidget_shapes::Box { lower: Vec3::new(-hx, -hy, -hz), upper: Vec3::new(hx, hy, hz) }.into() };
+    let t: Tree = match r.below(5) {
+        // a plain box (the round-2 witness: 1.0 x 0.6 x 0.8)
+        0 => { let (a, b, c) = (r1(r, 0.25, 0.52), r1(r, 0.2, 0.5), r1(r, 0.2, 0.5)); bx(r, a, b, c) }
+        // a thin slab or blade
+        1 => { let (a, b) = (r1(r, 0.3, 0.6), r1(r, 0.3, 0.6)); let c = r1(r, 0.03, 0.12); bx(r, a, b, c) }
+        // a box with a slot cut out (thin walls)
+        2 => { let o = bx(r, 0.5, 0.4, 0.4); let w = r1(r, 0.05, 0.25); let c = bx(r, w, 0.6, 0.25); Difference { shape: o, cutout: c }.into() }
+        // two crossing boxes (stairs / cross)
+        3 => { let (a, b) = (r1(r, 0.15, 0.3), r1(r, 0.15, 0.3)); let p = bx(r, 0.55, a, b); let q = bx(r, a, 0.55, b * 0.7); Union { input: vec![p, q] }.into() }
+        // a box clipped by a ball (curved and flat faces meeting in a crease)
+        _ => { let o = bx(r, 0.5, 0.45, 0.4); let s: Tree = Sphere { center: Vec3::new(0.0, 0.0, 0.0), radius: r1(r, 0.5, 0.7) }.into(); Intersection { input: vec![o, s] }.into() }
+    };
+    let mut ctx = Context::new();
+    let root = ctx.import(&t);
+    GenShape { ctx, root, kind: "oblique" }
+}
